@@ -712,7 +712,7 @@ fn random_case(rng: &mut Rng) -> Planned {
             if rng.chance(1, 5) {
                 c.relative_path = true;
             }
-            if rng.chance(1, 150) && c.stdin.len() + c.file.len() < 4096 {
+            if rng.chance(1, 150) && c.stdin.len() + c.file.len() < 4096 && lines.iter().all(|l| l.len() < 64) && lines.len() < 64 {
                 c.rlimit_as_mb = *rng.pick(&[96u64, 160, 256]);
             }
             c.note = "search".into();
